@@ -190,7 +190,11 @@ func (f *FnVC) execNode(n node) {
 		f.checkInvariant(li, st, entryNames, "inv-entry", n.b)
 		// 2. havoc loop targets
 		ms := f.E.loopWrites(li)
+		if ms.all {
+			f.havocKeeps = f.guardedKeeps(st, f.modsetCompNames(ms))
+		}
 		f.havocModset(st, ms)
+		f.havocKeeps = nil
 		if f.loopAllocates(li) {
 			f.bumpAlloc(st)
 		}
